@@ -1716,9 +1716,16 @@ class Authenticated(BaseClientHandler):
                     f"[TRYCREATE] No such mailbox: '{cmd.mailbox_name}'"
                 ) from exc
 
+        # NOTE: A set that names no message of this mailbox (UIDs that do not
+        #       exist) copies nothing. There is no COPYUID then: its uid-sets
+        #       can not be empty.
+        #
+        src_uid_list = [u for u in src_uids if u is not None]
+        if not src_uid_list:
+            return None
         return self._format_copyuid(
             dest_mbox,
-            [u for u in src_uids if u is not None],
+            src_uid_list,
             [u for u in dst_uids if u is not None],
         )
 
@@ -1804,8 +1811,11 @@ class Authenticated(BaseClientHandler):
         #
         src_uid_list = [u for u in src_uids if u is not None]
         dst_uid_list = [u for u in dst_uids if u is not None]
-        copyuid = self._format_copyuid(dest_mbox, src_uid_list, dst_uid_list)
-        await self.client.push(f"* OK {copyuid}\r\n")
+        if src_uid_list:
+            copyuid = self._format_copyuid(
+                dest_mbox, src_uid_list, dst_uid_list
+            )
+            await self.client.push(f"* OK {copyuid}\r\n")
 
         # Phase 3: Re-acquire the source mailbox and expunge the moved
         # messages by their UIDs, regardless of the Deleted sequence.
